@@ -129,6 +129,10 @@ def b2i(b):
     return z3.If(b, 1, 0)
 
 
+# schemas used in VCs whose Lean proof is not (yet) in lemmas/: reported as ASSUMED LEMMAS in every evidence file
+ASSUMED_SCHEMAS = ['isperm_range', 'invperm_facts', 'sortedperm_iff_isperm', 'imapsub_len', 'imapsub_get',
+                   'haszero_witness (zpos)', 'maxabs_witness (mpos)', 'iget_le_maxabs', 'iget_ne_zero', 'cget_snoc', 'card2_store']
+
 # ---------------------------------------------------------------------------------
 # lemma schemas: (name, lean theorem or 'assumed', variable sorts, builder)
 # builder(*terms) -> list of z3 formulas (instances)
